@@ -706,19 +706,45 @@ Qed.
 Lemma ex_bounds : in_bounds ex_p (s_th ex_s).
 Proof. repeat constructor; cbn [ex_comp c_th_dry c_th_s]; lra. Qed.
 
+Lemma rz_loop_defined rd aer p : forall th a, (length p <= length th)%nat ->
+  Exists (fun c => rd <= c_dzsum c) p -> rz_loop rd aer p th a <> None.
+Proof.
+  induction p as [|c p IH]; intros th a Hl Hex; [inversion Hex|].
+  destruct th as [|t th]; [simpl in Hl; lia|]. cbn [rz_loop]. rnum.
+  destruct (Rleb_spec rd (c_dzsum c)); [discriminate|].
+  apply IH; [simpl in Hl; lia|]. inversion Hex; subst; [lra|assumption].
+Qed.
+
+(* root_zone_water is defined when the (rounded) root depth lies inside the profile and, if the top soil is
+   shallower than the roots, the first compartment lies inside the (rounded) top soil *)
+Lemma rz_defined p zr th ztop zmin aer : (length p <= length th)%nat ->
+  Exists (fun c => tr_rootdepth zr zmin <= c_dzsum c) p ->
+  (ztop < tr_rootdepth zr zmin -> exists c p', p = c :: p' /\ c_dzsum c <= Rround 2 ztop) ->
+  root_zone_water p zr th ztop zmin aer <> None.
+Proof.
+  intros Hl Hex Htop. unfold root_zone_water.
+  change (nround_np num_ops 2 (npmax zr zmin)) with (tr_rootdepth zr zmin).
+  destruct (rz_loop _ _ _ _ _) as [a|] eqn:E; [|exfalso; eapply rz_loop_defined; eauto].
+  rnum. match goal with |- context [Rltb ztop ?x] => destruct (Rltb_spec ztop x) as [Hlt|] end; cbv beta iota; [|discriminate].
+  destruct (Htop Hlt) as [c [p' [-> Hc]]]. cbn [count_if]. rnum.
+  rewrite (Rleb_true _ _ Hc). pose proof (count_if_nonneg (fun c0 : Comp R => Rleb (c_dzsum c0) (Rround 2 ztop)) p') as Hn.
+  destruct (_ <=? 0)%Z eqn:Ez; [apply Z.leb_le in Ez; lia|].
+  destruct (top_loop _ _ _ _ _ _) as [[? ?] ?]. discriminate.
+Qed.
+
+Lemma ex_rd : tr_rootdepth (s_z_root ex_s) (k_Zmin ex_k) = 25/100.
+Proof.
+  unfold tr_rootdepth, pmax. cbn [ex_s ex_k s_z_root k_Zmin]. rnum. rdecide.
+  replace (25/100) with (IZR 25 / pow10 2) by (unfold pow10; simpl; lra). apply Rround_IZR.
+Qed.
+
 Lemma ex_rz_defined : root_zone_water ex_p (s_z_root ex_s) (s_th ex_s) (10/100) (k_Zmin ex_k) (k_Aer ex_k) <> None.
 Proof.
-  unfold root_zone_water. cbn [ex_s ex_k s_z_root s_th k_Zmin k_Aer].
-  assert (Hrd : nround_np num_ops 2 (npmax (25/100) (20/100)) = 25/100).
-  { unfold npmax. rnum. rewrite (Rltb_false (25/100) (20/100)) by lra.
-    replace (25/100) with (IZR 25 / pow10 2) by (unfold pow10; simpl; lra). apply Rround_IZR. }
-  rewrite Hrd.
-  assert (Hzt : nround_py num_ops 2 (10/100) = 10/100).
-  { rnum. replace (10/100) with (IZR 10 / pow10 2) by (unfold pow10; simpl; lra). apply Rround_IZR. }
-  rewrite Hzt.
-  cbn [ex_p rz_loop ex_comp c_dzsum c_dz c_th_dry c_th_wp c_th_fc c_th_s count_if]. rnum.
-  repeat rdecide. cbn [Z.add Z.leb Z.compare Pos.add]. 
-  destruct (top_loop _ _ _ _ _ _) as [[? ?] ?]. discriminate.
+  apply rz_defined; rewrite ?ex_rd.
+  - simpl. lia.
+  - apply Exists_cons_tl, Exists_cons_tl, Exists_cons_hd. cbn [ex_comp c_dzsum]. lra.
+  - intros _. eexists _, _. split; [reflexivity|]. cbn [ex_comp c_dzsum].
+    replace (10/100) with (IZR 10 / pow10 2) by (unfold pow10; simpl; lra). rewrite Rround_IZR. lra.
 Qed.
 
 (* the hypotheses of all the theorems above hold together on this instance, and so do their conclusions *)
@@ -993,7 +1019,7 @@ Proof.
     unfold npmax. rnum. repeat rdecide.
     rewrite (Rround2_near (10/100) 10) by (simpl; lra).
     cbn [rz_loop rf_c c_dz c_dzsum c_th_dry c_th_wp c_th_fc c_th_s]. unfold rz_term. rnum. cbn [a_act a_s a_fc a_wp a_dry a_aer].
-    repeat rdecide.
+    rewrite !(Rltb_false (10/100) (10/100)) by lra. rewrite (Rleb_true (10/100) (10/100)) by lra.
     rewrite (Rround2_near (1 * 1000 * (20004 / 100000) * (10 / 100)) 2000) by (simpl; lra).
     rewrite (Rround2_near (1 * 1000 * (50 / 100) * (10 / 100)) 5000) by (simpl; lra).
     rewrite (Rround2_near (1 * 1000 * (30 / 100) * (10 / 100)) 3000) by (simpl; lra).
